@@ -83,6 +83,14 @@ func c05Get(ti int, initial bool, ndef int, envDelim bool, nest int, nsDelim int
 		top.Opts = []*decl.Opt{other}
 		top.Groups = []*decl.Group{{Field: "Outer", Name: "Outer", EnvNamespace: "OUT", Groups: []*decl.Group{{Field: "Inner", Name: "Inner", EnvNamespace: "IN", Opts: []*decl.Opt{o}}}}}
 		ns, sect = []string{"OUT", "IN"}, "Inner"
+	case 3: // the inner group carries no env-namespace of its own: the outer one still applies
+		top.Opts = []*decl.Opt{other}
+		top.Groups = []*decl.Group{{Field: "Outer", Name: "Outer", EnvNamespace: "OUT", Groups: []*decl.Group{{Field: "Inner", Name: "Inner", Opts: []*decl.Opt{o}}}}}
+		ns, sect = []string{"OUT"}, "Inner"
+	case 4: // the outer group carries none, the inner one does
+		top.Opts = []*decl.Opt{other}
+		top.Groups = []*decl.Group{{Field: "Outer", Name: "Outer", Groups: []*decl.Group{{Field: "Inner", Name: "Inner", EnvNamespace: "IN", Opts: []*decl.Opt{o}}}}}
+		ns, sect = []string{"IN"}, "Inner"
 	}
 	switch cfgPos {
 	case 1:
@@ -124,7 +132,7 @@ func init() {
 		nini := c.Choose(3)
 		hi := c.Choose(len(c05Histories))
 		hist := c05Histories[hi]
-		nest := c.Deviate(3)
+		nest := c.Deviate(5)
 		nsDelim := c.Deviate(3)
 		if isBool && ncli == 2 {
 			c.Skip()
@@ -352,7 +360,7 @@ func init() {
 		DevBound:   func(bool) int { return 2 },
 		Rule: "9 option types (string, int, bool, *int, []string, []int, map[string]int, Unmarshaler, map[string]string with one key in every source) x initial value present/absent x 0..2 default tags x environment {unset, one value, two values with env-delim, set-but-empty} " +
 			"x 0..2 INI entries x 0..2 command-line occurrences x 10 histories (CLI only; INI then CLI; as-defaults INI then CLI; CLI then as-defaults INI; as-defaults, CLI, as-defaults; as-defaults read from a callback option given before / after the occurrences; " +
-			"from a callback option's default declared first / last; two as-defaults reads then CLI) x env-namespace nesting {none, outer, outer+inner} x EnvNamespaceDelimiter {_, empty, __} (nesting/delimiter deviation-bounded); " +
+			"from a callback option's default declared first / last; two as-defaults reads then CLI) x env-namespace nesting {none, outer, outer+inner, outer only around a plain inner group, inner only inside a plain outer group} x EnvNamespaceDelimiter {_, empty, __} (nesting/delimiter deviation-bounded); " +
 			"the history machine per option is {untouched, defaulted, ini, explicit}; oracle = precedence function CLI > INI > env > default tags > initial, multi-valued options holding exactly the winner's values",
 		Assumptions:  []string{"plain-mode INI read after a command-line parse is not ranked by the statement and is not exercised", "an empty environment value for a non-string option is skipped"},
 		RequiredHits: []string{"winner:cli", "winner:ini", "winner:env", "winner:default", "winner:initial", "history:CD", "history:DCD", "history:config-flag-after", "history:config-default-last"},
